@@ -3,9 +3,9 @@ package main
 // C01 — CLI exchanges return exactly the device's output, aligned per command.
 
 import (
-	"go/types"
 	"fmt"
 	"go/token"
+	"go/types"
 	"strings"
 
 	"golang.org/x/tools/go/ssa"
@@ -22,6 +22,10 @@ func init() {
 			"NOT decided: off-by-one inside the window computation, the prompt/ANSI regular expressions, fuzzy-match semantics beyond byte consumption (fuzzy-consume), alignment under arbitrary segmentations.",
 		Assumptions: []string{"bytes.ReplaceAll/Trim*/regexp.ReplaceAll behave as documented", "Queue is a lossless FIFO (C20)"},
 		Mutants: []Mutant{
+			{ID: "C01-write-and-return-skips-empty", Desc: "WriteAndReturn returns early for an empty input", Rule: "C01/write-primitives",
+				Edits: []Edit{{File: "channel/write.go", Old: "func (c *Channel) WriteAndReturn(b []byte, r bool) error {\n", New: "func (c *Channel) WriteAndReturn(b []byte, r bool) error {\n\tif len(b) == 0 {\n\t\treturn nil\n\t}\n\n"}}},
+			{ID: "C01-last-command-without-options", Desc: "the last command of SendCommands is sent without the per-operation options", Rule: "C01/opts-forwarded",
+				Edits: []Edit{{File: "driver/generic/sendcommands.go", Old: "\t\tcommands[len(commands)-1],\n\t\top,\n\t\topts...,\n\t)", New: "\t\tcommands[len(commands)-1],\n\t\top,\n\t)"}}},
 			{ID: "C01-extra-return-interim", Desc: "extra return on the interim-prompt branch", Rule: "C01/tx-seq",
 				Edits: []Edit{{File: "channel/sendinput.go", Old: "\t\t\t\tprompts = append(prompts, op.InterimPromptPatterns...)\n", New: "\t\t\t\tprompts = append(prompts, op.InterimPromptPatterns...)\n\n\t\t\t\t_ = c.WriteReturn()\n"}}},
 			{ID: "C01-explicit-depth-only", Desc: "exact echo matcher searches with PromptSearchDepth only", Rule: "C01/search-depth",
@@ -64,6 +68,8 @@ func runC01(c *Ctx, r *Report) {
 	importFoundation(c, r, "C01", "response-record")
 	importFoundation(c, r, "C01", "queue")
 	importFoundation(c, r, "C01", "transport-pipe")
+	r.Rule("C01/opts-forwarded", "every operation of the generic and network drivers hands its full per-operation option list (prompt stripping, input matching mode, eager) to each option-taking library callee", 8)
+	checkOptsForwarded(c, r, "C01/opts-forwarded", [][2]string{{"driver/generic", "Driver"}, {"driver/network", "Driver"}})
 	r.Rule("C01/explicit-matcher", "the exact echo matcher tests that the search window contains the input", 1)
 	r.Rule("C01/ansi-bounded", "no unbounded repetition of the escape-sequence pattern admits ESC or newline", 1)
 	checkExplicitMatcherArgs(c, r, "C01/explicit-matcher")
